@@ -173,17 +173,19 @@ def handleC12 : List String → Option String
     pure <| showExcept (fun _ => "-") (fixDtype d)
   | ["c12.process", outs] => do
     let outs ← parseOuts outs
-    -- consumer-side check: continuity of [start, stop) pairs
-    let check : Option Int → (Int × Int) → Except Err (Option Int) := fun last c =>
-      match last with
-      | some e => if c.1 != e then .error .valueError else .ok (some c.2)
-      | none => .ok (some c.2)
-    let (sv, out, e) := process check none outs {}
+    let (sv, out, e) := process contCheck none outs {}
     let vis := if sv.visible then "stored" else "not-stored"
     let cl := if sv.closed then 1 else 0
     pure <| match e with
       | none => s!"ok {out.length} {vis} written={sv.written.length} closed={cl}"
       | some e => s!"err {e.name} after {out.length} {vis} written={sv.written.length} closed={cl}"
+  | ["c12.processeager", outs] => do
+    let outs ← parseOuts outs
+    let (sv, e) := processEager contCheck none outs {}
+    let vis := if sv.visible then "stored" else "not-stored"
+    pure <| match e with
+      | none => s!"ok {vis}"
+      | some e => s!"err {e.name} {vis}"
   | _ => none
 where
   rawChunksToChunks' (rs : List RawChunk) : Except Err (List Chunk) := rs.mapM (·.mk')
